@@ -59,6 +59,134 @@ def _rust_const(src: str, name: str) -> int:
     return int(m.group(1).replace("_", ""), 0)
 
 
+def _detector_reset_analysis(dft):
+    """Definite-assignment analysis of RenameDetector.changes_with_renames (self-method calls inlined): every per-call
+    attribute (assigned anywhere in changes_with_renames or a method it calls) must be (re)assigned on EVERY path before it
+    is read.  Returns (sorted per-call attrs, sorted attrs that can be read stale, [(method, attr, line)])."""
+    cls = T.find_def(dft, "RenameDetector")
+    methods = {n.name: n for n in cls.body if isinstance(n, ast.FunctionDef)}
+    if "changes_with_renames" not in methods:
+        raise T.TranslateError("RenameDetector.changes_with_renames not found")
+
+    def self_attr(n):
+        return isinstance(n, ast.Attribute) and isinstance(n.value, ast.Name) and n.value.id == "self"
+
+    # reachable methods and the attributes they store
+    reach, todo = set(), ["changes_with_renames"]
+    while todo:
+        m = todo.pop()
+        if m in reach or m not in methods:
+            continue
+        reach.add(m)
+        for x in ast.walk(methods[m]):
+            if isinstance(x, ast.Call) and self_attr(x.func) and x.func.attr in methods:
+                todo.append(x.func.attr)
+    tracked = set()
+    for m in reach:
+        for x in ast.walk(methods[m]):
+            if self_attr(x) and isinstance(x.ctx, ast.Store):
+                tracked.add(x.attr)
+    if not {"_adds", "_deletes", "_changes", "_candidates"} <= tracked:
+        raise T.TranslateError(f"RenameDetector: per-call attributes not recognised: {sorted(tracked)}")
+    violations = []
+
+    def analyze(mname, cur, stack):
+        if mname in stack:
+            return cur
+        exits = []
+        out = block(methods[mname].body, set(cur), exits, mname, stack + [mname])
+        if out is not None:
+            exits.append(out)
+        return set.intersection(*exits) if exits else set(tracked)
+
+    def expr(node, cur, mname, stack):
+        """reads (and inlined self-method calls) of an expression, in approximate evaluation order; mutates cur"""
+        if node is None:
+            return
+        if isinstance(node, ast.Call) and self_attr(node.func) and node.func.attr in methods:
+            for a in list(node.args) + [k.value for k in node.keywords]:
+                expr(a, cur, mname, stack)
+            new = analyze(node.func.attr, cur, stack)
+            cur.clear()
+            cur.update(new)
+            return
+        if self_attr(node) and isinstance(node.ctx, ast.Load) and node.attr in tracked and node.attr not in cur:
+            violations.append((mname, node.attr, node.lineno))
+        for ch in ast.iter_child_nodes(node):
+            expr(ch, cur, mname, stack)
+
+    def store(target, cur, mname, stack):
+        if self_attr(target) and isinstance(target.ctx, ast.Store):
+            if target.attr in tracked:
+                cur.add(target.attr)
+        elif isinstance(target, (ast.Tuple, ast.List)):
+            for e in target.elts:
+                store(e, cur, mname, stack)
+        else:
+            expr(target, cur, mname, stack)
+
+    def block(stmts, cur, exits, mname, stack):
+        for st in stmts:
+            if isinstance(st, ast.Return):
+                expr(st.value, cur, mname, stack)
+                exits.append(set(cur))
+                return None
+            if isinstance(st, ast.Raise):
+                expr(st.exc, cur, mname, stack)
+                return None
+            if isinstance(st, ast.If):
+                expr(st.test, cur, mname, stack)
+                a = block(st.body, set(cur), exits, mname, stack)
+                b = block(st.orelse, set(cur), exits, mname, stack)
+                outs = [x for x in (a, b) if x is not None]
+                if not outs:
+                    return None
+                cur = set.intersection(*outs)
+            elif isinstance(st, (ast.For, ast.While)):
+                expr(st.iter if isinstance(st, ast.For) else st.test, cur, mname, stack)
+                block(st.body, set(cur), exits, mname, stack)
+                block(st.orelse, set(cur), exits, mname, stack)
+            elif isinstance(st, ast.Try):
+                outs = [block(st.body + st.orelse, set(cur), exits, mname, stack)]
+                outs += [block(h.body, set(cur), exits, mname, stack) for h in st.handlers]
+                outs = [x for x in outs if x is not None]
+                if not outs:
+                    return None
+                cur = set.intersection(*outs)
+                if st.finalbody:
+                    cur = block(st.finalbody, cur, exits, mname, stack)
+                    if cur is None:
+                        return None
+            elif isinstance(st, ast.With):
+                for it in st.items:
+                    expr(it.context_expr, cur, mname, stack)
+                cur = block(st.body, cur, exits, mname, stack)
+                if cur is None:
+                    return None
+            elif isinstance(st, (ast.FunctionDef, ast.ClassDef)):
+                for x in st.body:
+                    expr(x, set(cur), mname, stack)
+            elif isinstance(st, ast.Assign):
+                expr(st.value, cur, mname, stack)
+                for t in st.targets:
+                    store(t, cur, mname, stack)
+            elif isinstance(st, ast.AnnAssign):
+                expr(st.value, cur, mname, stack)
+                if st.value is not None:
+                    store(st.target, cur, mname, stack)
+            elif isinstance(st, ast.AugAssign):
+                expr(st.value, cur, mname, stack)
+                if self_attr(st.target) and st.target.attr in tracked and st.target.attr not in cur:
+                    violations.append((mname, st.target.attr, st.lineno))
+                store(st.target, cur, mname, stack)
+            else:
+                expr(st, cur, mname, stack)
+        return cur
+    analyze("changes_with_renames", set(), [])
+    stale = sorted({a for _, a, _ in violations})
+    return sorted(tracked), stale, violations
+
+
 def translate(repo: Path) -> dict:
     objs = T.module_ast(repo / "dulwich" / "objects.py")
     idx = T.module_ast(repo / "dulwich" / "index.py")
@@ -212,6 +340,8 @@ def translate(repo: Path) -> dict:
     split_ok = any(isinstance(n, ast.BoolOp) and isinstance(n.op, ast.And)
                    and "stat.S_IFMT(entry1.mode) != stat.S_IFMT(entry2.mode)" in [ast.unparse(v) for v in n.values]
                    and "not change_type_same" in [ast.unparse(v) for v in n.values] for n in ast.walk(tc))
+    det_attrs, det_stale, det_viol = _detector_reset_analysis(dft)
+    translate.detector_violations = det_viol
     fps = {
         "commit_tree": T.fingerprint(ct), "commit_tree_changes": T.fingerprint(ctc),
         "iter_tree_contents": T.fingerprint(T.find_def(ost, "iter_tree_contents")),
@@ -254,6 +384,11 @@ def typeChangeSplitsUnlessSame : Bool := {b(split_ok)}
 /-- commit_tree_changes stores the direct entries of a change list AFTER applying the nested changes (first loop only
 collects them; removals of direct entries are still done in the first loop) -/
 def ctcDirectEntriesDeferred : Bool := {b(ctc_deferred)}
+/-- RenameDetector: attributes (re)assigned during changes_with_renames (per-call state) -/
+def detPerCallAttrs : List String := [{", ".join(json.dumps(a) for a in det_attrs)}]
+/-- ... of which those that some path through changes_with_renames can READ before (re)assigning them in that call
+(definite-assignment analysis, self-method calls inlined; must be empty: reset set ⊇ read set){"".join(f"; {m}:{a}@{ln}" for m, a, ln in det_viol[:6])} -/
+def detStaleReads : List String := [{", ".join(json.dumps(a) for a in det_stale)}]
 def changeAdd : String := {json.dumps(names['add'])}
 def changeModify : String := {json.dumps(names['modify'])}
 def changeDelete : String := {json.dumps(names['delete'])}
@@ -536,6 +671,62 @@ def impl_merge(a):
         r = DT._merge_entries(unhx(path), ts[0], ts[1])
         res.append([[_entry(x), _entry(y)] for x, y in r])
     return res
+
+
+def impl_detseq(a):
+    """One long-lived RenameDetector used for a sequence of tree pairs vs a fresh detector per call; and
+    tree_changes_for_merge with one shared detector vs a proxy that builds a fresh one per parent."""
+    from dulwich.object_store import MemoryObjectStore, iter_tree_contents
+    from dulwich.index import commit_tree
+    from dulwich.objects import Blob
+    from dulwich.diff_tree import RenameDetector, tree_changes, tree_changes_for_merge
+    out = []
+    for case in a["cases"]:
+        store = MemoryObjectStore()
+        for d in POOL:
+            store.add_object(Blob.from_string(d))
+        opts = case["opts"]
+        res = {"calls": []}
+        try:
+            det = RenameDetector(store, **opts)
+            for call in case["seq"]:
+                ida = commit_tree(store, [(unhx(p), i.encode(), m) for p, m, i in call["a"]])
+                idb = commit_tree(store, [(unhx(p), i.encode(), m) for p, m, i in call["b"]])
+                r = {"flat_a": [_entry(e) for e in iter_tree_contents(store, ida, include_trees=call["inc"])],
+                     "flat_b": [_entry(e) for e in iter_tree_contents(store, idb, include_trees=call["inc"])]}
+                for who, d in (("reused", det), ("fresh", RenameDetector(store, **opts))):
+                    try:
+                        r[who] = [_change(x) for x in d.changes_with_renames(ida, idb, want_unchanged=call["wu"],
+                                                                              include_trees=call["inc"])]
+                    except Exception as e:
+                        r[who] = _exc(e)
+                # the same through the public entry point (generator)
+                try:
+                    r["via_tree_changes"] = [_change(x) for x in tree_changes(store, ida, idb, want_unchanged=call["wu"],
+                                                                               include_trees=call["inc"], rename_detector=det)]
+                except Exception as e:
+                    r["via_tree_changes"] = _exc(e)
+                res["calls"].append(r)
+            if len(case["seq"]) >= 2:
+                # merge: the b side of the last call is the merge result, the a sides are the parents
+                tree = commit_tree(store, [(unhx(p), i.encode(), m) for p, m, i in case["seq"][-1]["b"]])
+                parents = [commit_tree(store, [(unhx(p), i.encode(), m) for p, m, i in c["a"]]) for c in case["seq"]]
+
+                class FreshEachCall:
+                    def changes_with_renames(self, *args, **kw):
+                        return RenameDetector(store, **opts).changes_with_renames(*args, **kw)
+
+                def canon(rows):
+                    return [[None if c is None else _change(c) for c in row] for row in rows]
+                try:
+                    res["merge_shared"] = canon(tree_changes_for_merge(store, parents, tree, rename_detector=RenameDetector(store, **opts)))
+                    res["merge_fresh"] = canon(tree_changes_for_merge(store, parents, tree, rename_detector=FreshEachCall()))
+                except Exception as e:
+                    res["merge_shared"] = res["merge_fresh"] = _exc(e)
+        except Exception as e:
+            res["exc"] = _exc(e)
+        out.append(res)
+    return out
 
 
 def impl_which(a):
@@ -1309,6 +1500,147 @@ def oracle_git(ctx, stream, c, cj, res, git):
                                     f"tree_changes[{fl}] differs from git diff-tree -r --raw -z --no-renames", f"diff-vs-cgit:{fl}")
 
 
+
+# ------------------------------------------------------------------------------------------------
+# long-lived RenameDetector: call independence
+
+SIMILAR = [3, 4, 5, 6]  # POOL indices with graded similarity (content renames / copies)
+
+
+def _pair_with_candidates(rng):
+    """a pair whose diff has inexact (content) rename / copy candidates"""
+    a = {b"keep": (REG, POOL_IDS[2])}
+    b = dict(a)
+    for k in range(rng.choice([1, 1, 2])):
+        src, dst = rng.sample(SIMILAR, 2)
+        a[b"old%d" % k] = (REG, POOL_IDS[src])
+        b[rng.choice([b"new%d", b"d/new%d", b"a.b/n%d"]) % k] = (rng.choice([REG, EXE]), POOL_IDS[dst])
+    if rng.random() < 0.4:  # a modified file that is also a copy source
+        a[b"m"] = (REG, POOL_IDS[3])
+        b[b"m"] = (REG, POOL_IDS[5])
+        b[b"copy"] = (REG, POOL_IDS[4])
+    return a, b
+
+
+def _pair_many(rng, nadd, ndel):
+    """nadd adds x ndel deletes, no exact matches (so the pairs reach the max_files cut-off)"""
+    a = {b"keep": (REG, POOL_IDS[2])}
+    b = dict(a)
+    pool = [POOL_IDS[i] for i in (0, 1, 9, 10, 11, 7)]
+    for k in range(ndel):
+        a[b"del%d" % k] = (REG, pool[k % 3])
+    for k in range(nadd):
+        b[b"add%d" % k] = (REG, pool[3 + k % 3])
+    return a, b
+
+
+def gen_detseq(rng, default_max=False):
+    opts = {}
+    mf = 200 if default_max else rng.choice([1, 1, 2, 2, 3, None, 0])
+    if not default_max or rng.random() < 0.5:
+        opts["max_files"] = mf
+    if rng.random() < 0.6:
+        opts["rename_threshold"] = rng.choice([0, 30, 60, 99, 100])
+    if rng.random() < 0.4:
+        opts["rewrite_threshold"] = rng.choice([0, 40, 60, 101])
+    if rng.random() < 0.4:
+        opts["find_copies_harder"] = True
+    lim = (mf if mf is not None else 3)
+    seq = []
+    shape = rng.choice(["cand-cut", "cut-cand", "cand-cut-cand", "cand-cand", "random", "cand-edge"])
+    for step in shape.split("-") if shape != "random" else ["random"] * rng.randint(2, 4):
+        if step == "cand":
+            a, b = _pair_with_candidates(rng)
+        elif step == "cut":
+            if default_max:
+                a, b = _pair_many(rng, 201, 200)
+            else:
+                n = lim + rng.choice([1, 1, 2])
+                a, b = _pair_many(rng, n, rng.choice([n, max(1, lim)]))
+        elif step == "edge":  # exactly at / just over the cut-off
+            a, b = _pair_many(rng, max(1, lim), max(1, lim) + rng.choice([0, 1]))
+        else:
+            _, la, lb = gen_pair(rng)
+            a, b = {p: (m, i) for p, m, i in la}, {p: (m, i) for p, m, i in lb}
+        seq.append({"a": to_listing(rng, a), "b": to_listing(rng, b), "wu": rng.random() < 0.3, "inc": rng.random() < 0.3})
+    return {"tag": shape + (":mf200" if default_max else f":mf{mf}"), "opts": opts, "seq": seq}
+
+
+def detseq_json(c):
+    return {"tag": c["tag"], "opts": c["opts"],
+            "seq": [{"a": jl(x["a"]), "b": jl(x["b"]), "wu": x["wu"], "inc": x["inc"]} for x in c["seq"]]}
+
+
+def detseq_from_json(j):
+    return {"tag": j.get("tag"), "opts": j["opts"],
+            "seq": [{"a": unjl(x["a"]), "b": unjl(x["b"]), "wu": x["wu"], "inc": x["inc"]} for x in j["seq"]]}
+
+
+def eval_detseq(ctx, stream, cases, workers):
+    CH = 25
+    for s0 in range(0, len(cases), CH):
+        chunk = cases[s0:s0 + CH]
+        req = {"mod": MOD, "op": "detseq", "args": {"cases": [detseq_json(c) for c in chunk]}}
+        for v, wk in workers.items():
+            rep = wk.ask(req, timeout=900)
+            if "r" not in rep:
+                ctx.oracle_fail(stream, {"variant": v, "detseq": [detseq_json(c) for c in chunk][:1]},
+                                f"detector sequence crashed the worker: {rep}", f"detector-crash:{v}")
+                continue
+            for c, res in zip(chunk, rep["r"]):
+                cj = {"variant": v, "detseq": detseq_json(c)}
+                ctx.count(stream, (v, json.dumps(detseq_json(c), sort_keys=True)), True, f"{v}:{c['tag']}")
+
+                def fail(what, cls):
+                    ctx.oracle_fail(stream, cj, what, cls)
+                if "exc" in res:
+                    fail(f"detector sequence raised {res['exc']}", f"detector-raises:{res['exc'].get('exc')}")
+                    continue
+                for k, r in enumerate(res["calls"]):
+                    reused, fresh, via = r["reused"], r["fresh"], r["via_tree_changes"]
+                    if reused != fresh:
+                        fail(f"call {k}: a reused RenameDetector returns something else than a fresh one with the same options "
+                             f"(reused {str(reused)[:160]} fresh {str(fresh)[:160]})", "detector-reuse")
+                    if via != fresh:
+                        fail(f"call {k}: tree_changes(rename_detector=reused detector) differs from a fresh detector", "detector-reuse")
+                    if not isinstance(reused, list):
+                        fail(f"call {k}: changes_with_renames raised {reused}", f"detector-raises:{reused.get('exc')}")
+                        continue
+                    fa, fb = unj_entries(r["flat_a"]), unj_entries(r["flat_b"])
+                    sa, sb = set(fa), set(fb)
+                    chg = unj_changes(reused)
+                    for t, o, n in chg:
+                        if (o is not None and o not in sa) or (n is not None and n not in sb):
+                            fail(f"call {k}: change {t} {o} -> {n} names an entry that is not in the corresponding tree", "detector-path-missing")
+                            break
+                    if ref_apply(chg, fa) != {p: (m, i) for p, m, i in fb}:
+                        fail(f"call {k}: applying the reused detector's changes to flatten(a) does not give flatten(b)", "detector-image")
+                if res.get("merge_shared") != res.get("merge_fresh"):
+                    fail("tree_changes_for_merge with one shared RenameDetector differs from a fresh detector per parent", "detector-reuse:merge")
+
+
+def _fixed_detseqs():
+    """candidates from pair 1 (old0: POOL3 -> new0: POOL4), then a pair over the cut-off for max_files = 1, 2, 3; and reversed"""
+    out = []
+    cand = ([(b"keep", REG, POOL_IDS[2]), (b"old0", REG, POOL_IDS[3])], [(b"keep", REG, POOL_IDS[2]), (b"new0", REG, POOL_IDS[4])])
+    for mf in (1, 2, 3):
+        a, b = _pair_many(__import__("random").Random(mf), mf + 1, mf + 1)
+        cut = ([(p, m, i) for p, (m, i) in a.items()], [(p, m, i) for p, (m, i) in b.items()])
+        for order in ((cand, cut), (cut, cand), (cand, cut, cand)):
+            for wu, inc in ((False, False), (True, False), (False, True)):
+                out.append({"tag": f"fixed:mf{mf}:{len(order)}", "opts": {"max_files": mf},
+                            "seq": [{"a": x[0], "b": x[1], "wu": wu, "inc": inc} for x in order]})
+    return out
+
+
+def _stream_detector(ctx, workers, stream="detector.reuse", scale=1):
+    rng = ctx.rng
+    cases = _fixed_detseqs() + [gen_detseq(rng) for _ in range(ctx.budget(120) * scale)]
+    if ctx.thorough:
+        cases += [gen_detseq(rng, default_max=True) for _ in range(2)]
+    ctx.extra_cov["detector_sequences"] = len(cases)
+    eval_detseq(ctx, stream, cases, workers)
+
 # ------------------------------------------------------------------------------------------------
 # streams
 
@@ -1524,6 +1856,8 @@ def run(ctx: core.Ctx):
         "patch semantics of a change list: all removals (delete/modify/rename old side) first, then all installations "
         "(add/modify/rename/copy new side); 'each path at most once' is read per side (a type change reported as "
         "delete+add names the path once as old and once as new) and overall when change_type_same=True",
+        "a long-lived RenameDetector (also through tree_changes and tree_changes_for_merge) must answer every call as a fresh "
+        "detector with the same options would; Walker's own use of its detector is not exercised separately",
         "tree_changes vs C git is compared as a set of raw lines (dulwich walks in name order, git in tree order); "
         "delete+add of one path is C git's single T line",
     ]
@@ -1536,6 +1870,7 @@ def run(ctx: core.Ctx):
         _stream_merge(ctx, workers)
         _stream_invalid(ctx, workers)
         _stream_alphabet(ctx, workers)
+        _stream_detector(ctx, workers)
         _stream_pairs(ctx, workers, git)
         ctx.extra_cov["cgit_calls"] = git.calls
     finally:
@@ -1550,6 +1885,9 @@ def search(ctx: core.Ctx):
     rng = ctx.rng
     try:
         git = Git(ctx)
+        _stream_detector(ctx, workers, stream="search.detector", scale=4)
+        if ctx.oracle_failures:
+            return
         cases = []
         for dgr in ctx.disagreements[:40]:
             cj = dgr.get("case") or {}
@@ -1578,6 +1916,20 @@ def search(ctx: core.Ctx):
 
 def replay(ctx: core.Ctx, data: dict) -> int:
     cj = data.get("case", data)
+    if "detseq" in cj:
+        workers = make_workers(ctx)
+        try:
+            eval_detseq(ctx, "replay", [detseq_from_json(cj["detseq"])], workers)
+            for f in ctx.oracle_failures:
+                print("replay: oracle failure:", f["what"][:300], "| class:", f["class"])
+            if ctx.oracle_failures:
+                print(f"VIOLATION property=C12 replay={data.get('_path', '<replayed>')}")
+                return 1
+            print("replay: property holds on this detector sequence")
+            return 0
+        finally:
+            for v in workers.values():
+                v.close()
     if "a" not in cj:
         print("replay: no concrete case in this file (broken obligation without failing input):", data.get("no_longer_checks"))
         return 1
